@@ -42,3 +42,13 @@ package grpc
 //@        && did(call (*x509.Certificate).VerifyHostname #1) && isNilIface(ret(call (*x509.Certificate).VerifyHostname #1)) && arg(call (*x509.Certificate).VerifyHostname #1, 0) == peer.Certificate
 //@        && arg(call (*x509.Certificate).VerifyHostname #1, 1) == ret(call (*url.URL).Hostname #1) && arg(call (*url.URL).Hostname #1, 0) == ret(call url.Parse #1).0 && isNilIface(ret(call url.Parse #1).1)
 //@   ensures [failure-is-not-authenticated] !isNilIface(result.1) ==> result.0.Authenticated == peer.Authenticated
+
+// ---- C15: behind a TLS terminator the peer's certificate is what the TERMINATOR put into the header: the header must have
+// exactly one value (a second value means the client sent one of its own, which a terminator that appends would put FIRST)
+// holding exactly one certificate - otherwise the connection is not authenticated ----
+//@ func (metadata.MD).Get
+//@   trusted
+//@   benign
+//@ func (*tlsOffloadingAuthenticator).authenticate
+//@   prop C15
+//@   ensures [exactly-one-header-value-with-exactly-one-certificate] isNilIface(result.1) ==> did(call (metadata.MD).Get #1) && len(ret(call (metadata.MD).Get #1)) == 1 && len(result.0) == 1
